@@ -42,6 +42,7 @@ def build_evse(sid, e):
 
 
 LAST_EVSES = {}  # station id -> EVSE object of the most recently built network (harness-side handle)
+LAST_CURRENTS = {}  # constraint name -> the Current object handed to add_constraint for the most recently built network
 
 
 def build_network(nd, cls=None, order=None, cons_order=None, **kw):
@@ -58,8 +59,17 @@ def build_network(nd, cls=None, order=None, cons_order=None, **kw):
         LAST_EVSES[s["id"]] = evse
         net.register_evse(evse, s["voltage"], s["phase"])
     cons = nd["constraints"] if cons_order is None else [nd["constraints"][i] for i in cons_order]
+    LAST_CURRENTS.clear()
+    ids_reg = [s["id"] for s in stations]
     for c in cons:
-        net.add_constraint(Current(dict(c["coeffs"])), c["limit"], name=c["name"])
+        if nd.get("arith") and len(c["coeffs"]) >= 2:
+            # the constraint is assembled by Current arithmetic from two Currents over the SAME stations: a weight table in the
+            # descriptor's own order plus a zero Current listing the stations in registration order
+            cur = Current({i: 0.0 for i in ids_reg if i in c["coeffs"]}) + Current(dict(c["coeffs"]))
+        else:
+            cur = Current(dict(c["coeffs"]))
+        LAST_CURRENTS[c["name"]] = cur
+        net.add_constraint(cur, c["limit"], name=c["name"])
     return net
 
 
